@@ -92,182 +92,175 @@ func runC11(p *Program, e *Engine, r *Result, tier string) {
 		return
 	}
 	a.R.fact("old-name field Event.%s; ring %s of length %d", oldF.Name(), fieldStr(ro, ringF), ringLen)
-	// (1) stores to the old-name field
-	type site struct {
-		fn *ssa.Function
-		st *ssa.Store
+	// The rules are evaluated from the translator root (the function returning Event that the handler calls), with
+	// helpers inlined, so that extracting the cookie store/lookup into methods does not change the verdict.
+	trs := findTranslators(a)
+	if len(trs) != 1 {
+		a.R.fail("anchor unresolved: translator (found %d)", len(trs))
+		return
 	}
-	var sites []site
+	trFn := trs[0].fn
+	w := a.walk(trFn)
+	// (1) stores to the old-name field, anywhere in the package
+	nSites := 0
 	for _, fn := range a.P.srcFuncs(a.P.Main) {
 		for _, b := range fn.Blocks {
 			for _, in := range b.Instrs {
 				if st, ok := in.(*ssa.Store); ok {
 					if fa, ok := st.Addr.(*ssa.FieldAddr); ok && fieldOf(fa) == oldF {
-						sites = append(sites, site{fn, st})
+						nSites++
 					}
 				}
 			}
 		}
 	}
-	a.R.ob("C11.1", "old-name:single-writer", "the old-name field of an event has exactly one writer in the backend", "-", len(sites) == 1, sprintf("%d store site(s)", len(sites)))
+	a.R.ob("C11.1", "old-name:single-writer", "the old-name field of an event has exactly one writer in the backend", "-", nSites == 1, sprintf("%d store site(s)", nSites))
 	movedTo, _ := unixConst(a, "IN_MOVED_TO")
 	movedFrom, _ := unixConst(a, "IN_MOVED_FROM")
 	hasBit := func(k uint64) func(Lit) bool {
-		return func(l Lit) bool { return l.A.Kind == AkBit && !l.Neg && l.A.Bits == k && strings.HasSuffix(l.A.Subj, "mask") }
+		return func(l Lit) bool {
+			return !l.Neg && (l.A.Kind == AkBit || l.A.Kind == AkAny || l.A.Kind == AkAll) && l.A.Bits == k && strings.HasSuffix(l.A.Subj, "mask")
+		}
 	}
 	cookieNZ := func(l Lit) bool {
 		return l.A.Kind == AkCmp && l.Neg && l.A.Op == "==" && l.A.K == "c:0" && strings.HasSuffix(l.A.Subj, "cookie") && !strings.Contains(l.A.Subj, "[")
 	}
-	for _, s := range sites {
-		w := a.walk(s.fn)
-		vi := indexVisits(w)
-		var root *Ctx
-		if len(w.Visits) > 0 {
-			root = w.Visits[0].Ctx.root()
+	ringSlot := func(c *Ctx, v ssa.Value) (slot string, ok bool) {
+		p := stripIDs(c.path(v))
+		pre := "recv." + ringF.Name() + "["
+		if strings.HasPrefix(p, pre) && !strings.HasPrefix(p, pre+":") && strings.HasSuffix(p, "]."+ringPathField(ringF)) {
+			return strings.TrimSuffix(p, "."+ringPathField(ringF)), true
 		}
-		v := vi[root][s.st]
-		if v == nil {
+		return p, false
+	}
+	nOld := 0
+	for _, v := range w.Visits {
+		st, ok := v.Instr.(*ssa.Store)
+		if !ok {
 			continue
 		}
+		fa, ok := st.Addr.(*ssa.FieldAddr)
+		if !ok || fieldOf(fa) != oldF {
+			continue
+		}
+		nOld++
 		g, bad := v.Cond.everyConj(func(c Conj) bool { return c.has(cookieNZ) && c.has(hasBit(movedTo)) })
-		wit := "store reached under " + stripIDs(v.Cond.String())
+		wit := "store reached under " + tail(stripIDs(v.Cond.String()), 300)
 		if !g {
 			wit = "the old name can be set under " + stripIDs(bad.String())
 		}
-		a.R.ob("C11.1", "old-name:guard", "the old name is set only for a record with a non-zero cookie and IN_MOVED_TO", a.P.instrPos(s.st), g, wit)
-		// value edges
-		edges := []ssa.Value{s.st.Val}
-		var phi *ssa.Phi
-		if ph, ok := s.st.Val.(*ssa.Phi); ok {
-			phi = ph
-			edges = ph.Edges
-		}
-		for i, ev := range edges {
-			if k, ok := ev.(*ssa.Const); ok && k.Value != nil && k.Value.ExactString() == `""` {
-				a.R.ob("C11.1", "old-name:edge(empty)", "without a matching slot the old name stays empty", a.P.instrPos(s.st), true, "constant \"\"")
+		a.R.ob("C11.1", "old-name:guard", "the old name is set only for a record with a non-zero cookie and IN_MOVED_TO", a.P.instrPos(st), g, wit)
+		for _, e := range valueEdges(v.Ctx, st.Val, dnfTrue()) {
+			if k, ok := e.V.(*ssa.Const); ok && k.Value != nil && k.Value.ExactString() == `""` {
+				a.R.ob("C11.1", "old-name:edge(empty)", "without a matching slot the old name stays empty", a.P.instrPos(st), true, "constant \"\"")
 				continue
 			}
-			p := stripIDs(root.path(ev))
-			fromRing := strings.HasPrefix(p, "recv."+ringF.Name()+"[") && !strings.HasPrefix(p, "recv."+ringF.Name()+"[:") && strings.HasSuffix(p, "]."+ringPathField(ringF))
-			matched := false
-			cond := dnfTrue()
-			if phi != nil {
-				cond = phiEdgeCond(root, phi, i)
-			} else {
-				cond = v.Local
-			}
-			slot := strings.TrimSuffix(p, "."+ringPathField(ringF))
-			matched, _ = cond.everyConj(func(c Conj) bool {
+			slot, fromRing := ringSlot(e.Ctx, e.V)
+			want := slot + "." + ringCookieField(ringF)
+			matched, _ := e.Cond.everyConj(func(c Conj) bool {
 				return c.has(func(l Lit) bool {
 					if l.A.Kind != AkCmp || l.Neg || l.A.Op != "==" {
 						return false
 					}
 					s1, s2 := stripIDs(l.A.Subj), stripIDs(l.A.K)
-					want := slot + "." + ringCookieField(ringF)
-					return (s1 == want && strings.HasSuffix(s2, "cookie") && !strings.Contains(s2, "[")) || (s2 == want && strings.HasSuffix(s1, "cookie") && !strings.Contains(s1, "["))
+					plain := func(s string) bool { return strings.HasSuffix(s, "cookie") && !strings.Contains(s, "[") }
+					return (s1 == want && plain(s2)) || (s2 == want && plain(s1))
 				})
 			})
-			a.R.ob("C11.1", "old-name:edge(slot)", "a non-empty old name is the path of a ring slot whose cookie equals this record's cookie", a.P.instrPos(s.st), fromRing && matched,
-				sprintf("value %s on an edge conditioned on %s", tail(p, 90), stripIDs(cond.String())))
-			// the search covers the whole ring: the loop bound is the ring length from the type
-			whole, _ := cond.everyConj(func(c Conj) bool {
+			a.R.ob("C11.1", "old-name:edge(slot)", "a non-empty old name is the path of a ring slot whose cookie equals this record's cookie", a.P.instrPos(st), fromRing && matched,
+				sprintf("value %s on an edge conditioned on %s", tail(slot, 90), tail(stripIDs(e.Cond.String()), 300)))
+			whole, _ := e.Cond.everyConj(func(c Conj) bool {
 				return c.has(func(l Lit) bool {
 					return l.A.Kind == AkCmp && !l.Neg && l.A.Op == "<" && l.A.K == sprintf("c:%d", ringLen)
 				})
 			})
-			a.R.ob("C11.1", "old-name:whole-ring", "the cookie is looked up in every slot of the ring (a pending move is found wherever the index has moved to)", a.P.instrPos(s.st), whole && fromRing,
+			a.R.ob("C11.1", "old-name:whole-ring", "the cookie is looked up in every slot of the ring (a pending move is found wherever the index has moved to)", a.P.instrPos(st), whole && fromRing,
 				sprintf("loop bound in the edge condition: expected index < %d", ringLen))
 		}
 	}
-	// (2) ring writes
+	if nOld == 0 {
+		a.R.fail("the translator %s does not reach the store of the old-name field (vacuous)", shortFn(trFn))
+	}
+	// (2) ring writes, at any depth below the translator
 	nRing := 0
-	for _, fn := range a.P.srcFuncs(a.P.Main) {
-		w := a.walk(fn)
-		if fn.Signature.Recv() == nil {
+	for _, v := range w.Visits {
+		st, ok := v.Instr.(*ssa.Store)
+		if !ok {
 			continue
 		}
-		for _, v := range w.Visits {
-			if v.Ctx.Parent != nil {
-				continue
+		ia, ok := st.Addr.(*ssa.IndexAddr)
+		if !ok || v.Ctx.fieldOfValue(ia.X) != ringF && fieldOf(ia.X) != ringF {
+			continue
+		}
+		nRing++
+		g, bad := v.Cond.everyConj(func(c Conj) bool { return c.has(cookieNZ) && c.has(hasBit(movedFrom)) })
+		wit := "slot written under " + tail(stripIDs(v.Cond.String()), 300)
+		if !g {
+			wit = "a slot can be written under " + stripIDs(bad.String())
+		}
+		a.R.ob("C11.2", "ring-write:guard", "a ring slot is written only for a record with a non-zero cookie and IN_MOVED_FROM", a.P.instrPos(st), g, wit)
+		a.R.ob("C11.2", "ring-write:locked", "the ring is written under its mutex", a.P.instrPos(st), len(v.Must) > 0, "must-lockset "+LockSet(v.Must).String())
+		// stored struct: cookie field <- this record's cookie; path field <- Name of the returned event
+		ckOK, nmOK := false, false
+		var desc []string
+		retName := ""
+		if ret := singleReturn(trFn); ret != nil && len(ret.Results) >= 1 {
+			retName = stripIDs(w.Visits[0].Ctx.root().path(ret.Results[0])) + ".Name"
+		} else {
+			// several returns: all must return the same event cell
+			for _, b := range trFn.Blocks {
+				if r, ok := b.Instrs[len(b.Instrs)-1].(*ssa.Return); ok && len(r.Results) >= 1 {
+					retName = stripIDs(w.Visits[0].Ctx.root().path(r.Results[0])) + ".Name"
+				}
 			}
-			st, ok := v.Instr.(*ssa.Store)
-			if !ok {
-				continue
-			}
-			ia, ok := st.Addr.(*ssa.IndexAddr)
-			if !ok || fieldOf(ia.X) != ringF {
-				continue
-			}
-			nRing++
-			g, bad := v.Cond.everyConj(func(c Conj) bool { return c.has(cookieNZ) && c.has(hasBit(movedFrom)) })
-			wit := "slot written under " + stripIDs(v.Cond.String())
-			if !g {
-				wit = "a slot can be written under " + stripIDs(bad.String())
-			}
-			a.R.ob("C11.2", "ring-write:guard", "a ring slot is written only for a record with a non-zero cookie and IN_MOVED_FROM", a.P.instrPos(st), g, wit)
-			locked := len(v.Must) > 0
-			a.R.ob("C11.2", "ring-write:locked", "the ring is written under its mutex", a.P.instrPos(st), locked, "must-lockset "+LockSet(v.Must).String())
-			// stored struct: cookie field <- this record's cookie; path field <- Name of the returned event
-			ckOK, nmOK := false, false
-			var desc []string
-			if ld, ok := st.Val.(*ssa.UnOp); ok && ld.Op == token.MUL {
-				if al, ok := ld.X.(*ssa.Alloc); ok {
-					if refs := al.Referrers(); refs != nil {
-						for _, rr := range *refs {
-							fa, ok := rr.(*ssa.FieldAddr)
-							if !ok {
-								continue
-							}
-							if fr := fa.Referrers(); fr != nil {
-								for _, u := range *fr {
-									s2, ok := u.(*ssa.Store)
-									if !ok || s2.Addr != ssa.Value(fa) {
-										continue
+		}
+		if ld, ok := st.Val.(*ssa.UnOp); ok && ld.Op == token.MUL {
+			if al, ok := ld.X.(*ssa.Alloc); ok {
+				if refs := al.Referrers(); refs != nil {
+					for _, rr := range *refs {
+						fa, ok := rr.(*ssa.FieldAddr)
+						if !ok {
+							continue
+						}
+						if fr := fa.Referrers(); fr != nil {
+							for _, u := range *fr {
+								s2, ok := u.(*ssa.Store)
+								if !ok || s2.Addr != ssa.Value(fa) {
+									continue
+								}
+								vp := stripIDs(v.Ctx.path(s2.Val))
+								desc = append(desc, fieldName(fa.X.Type(), fa.Field)+"<-"+tail(vp, 60))
+								if isString(s2.Val.Type()) {
+									if vp == retName {
+										nmOK = true
 									}
-									vp := stripIDs(v.Ctx.path(s2.Val))
-									desc = append(desc, fieldName(fa.X.Type(), fa.Field)+"<-"+tail(vp, 60))
-									if isString(s2.Val.Type()) {
-										// Name of the event returned by this function
-										if ret := singleReturn(fn); ret != nil && len(ret.Results) >= 1 {
-											rp := stripIDs(v.Ctx.path(ret.Results[0]))
-											if vp == rp+".Name" {
-												nmOK = true
-											}
-										}
-									} else if strings.HasSuffix(vp, "cookie") && strings.HasPrefix(vp, "p:") {
-										ckOK = true
-									}
+								} else if strings.HasSuffix(vp, "cookie") && strings.HasPrefix(vp, "p:") {
+									ckOK = true
 								}
 							}
 						}
 					}
 				}
 			}
-			a.R.ob("C11.2", "ring-write:value", "the slot records this record's cookie and the Name of the event being returned (the Rename event's name)", a.P.instrPos(st), ckOK && nmOK, strings.Join(desc, ", "))
-			// (3) index safety
-			idxLoad, ok := stripConv(ia.Index).(*ssa.UnOp)
-			if !ok || fieldOf(idxLoad.X) == nil {
-				a.R.ob("C11.3", "ring-index", "the slot index is the ring's index field", a.P.instrPos(st), false, "index operand "+ia.Index.String())
-				continue
-			}
-			idxF = fieldOf(idxLoad.X)
-			c11Index(a, fn, w, idxF, ringLen)
 		}
-	}
-	if nRing == 0 {
-		a.R.fail("no write to the ring found (vacuous)")
-	}
-	// ring reads under the lock
-	for _, fn := range a.P.srcFuncs(a.P.Main) {
-		if fn.Signature.Recv() == nil {
+		a.R.ob("C11.2", "ring-write:value", "the slot records this record's cookie and the Name of the event being returned (the Rename event's name)", a.P.instrPos(st), ckOK && nmOK, strings.Join(desc, ", ")+"; returned event name is "+retName)
+		// (3) index safety
+		idxLoad, ok := stripConv(ia.Index).(*ssa.UnOp)
+		if !ok || fieldOf(idxLoad.X) == nil {
+			a.R.ob("C11.3", "ring-index", "the slot index is the ring's index field", a.P.instrPos(st), false, "index operand "+ia.Index.String())
 			continue
 		}
-		w := a.walk(fn)
-		for _, v := range w.Visits {
-			if fa, ok := v.Instr.(*ssa.FieldAddr); ok && v.Ctx.Parent == nil && fieldOf(fa) == ringF {
-				if len(v.Must) == 0 {
-					a.R.ob("C11.2", "ring-access:locked@"+shortFn(fn), "the ring is accessed under its mutex", a.P.instrPos(fa), false, "no lock held")
-				}
+		idxF = fieldOf(idxLoad.X)
+		c11Index(a, trFn, w, idxF, ringLen)
+	}
+	if nRing == 0 {
+		a.R.fail("no write to the ring reachable from the translator (vacuous)")
+	}
+	// ring accesses under the lock
+	for _, v := range w.Visits {
+		if fa, ok := v.Instr.(*ssa.FieldAddr); ok && fieldOf(fa) == ringF {
+			if len(v.Must) == 0 {
+				a.R.ob("C11.2", "ring-access:locked@"+shortFn(fa.Parent()), "the ring is accessed under its mutex", a.P.instrPos(fa), false, "no lock held")
 			}
 		}
 	}
@@ -307,9 +300,6 @@ func c11Index(a *An, fn *ssa.Function, w *Walker, idxF *types.Var, n int64) {
 	inc, reset, mod := false, false, false
 	var desc []string
 	for _, v := range w.Visits {
-		if v.Ctx.Parent != nil {
-			continue
-		}
 		st, ok := v.Instr.(*ssa.Store)
 		if !ok {
 			continue
